@@ -10,6 +10,7 @@ import ALV.Lemmas.C17Locks
 import ALV.Lemmas.C17Shutdown
 import ALV.Lemmas.C17Paused
 import ALV.Lemmas.C17Wait
+import ALV.Lemmas.C17FineLive
 import ALV.Common.Audit
 
 namespace ALV.Props.C17
@@ -24,8 +25,8 @@ skipped), and it is the whole sequence once the player has left its loop without
 stopped. -/
 theorem delivered_prefix {cfg : Cfg} {script : List Cmd} {s : State} (h : Reach cfg script s)
     (k : Nat) (p : Player) (hp : s.players[k]? = some p) :
-    p.written <+: chunksOf cfg.cs p.audio ∧
-    (afterLoop p.pc = true → p.halting = false → p.written = chunksOf cfg.cs p.audio) := by
+    p.written <+: chunksOf p.cs p.audio ∧
+    (afterLoop p.pc = true → p.halting = false → p.written = chunksOf p.cs p.audio) := by
   obtain ⟨h0, h1, _, h3⟩ := ploc_reach h k p hp
   refine ⟨⟨p.todo, by rw [h1, h0]⟩, fun ha hh => ?_⟩
   rcases h3 ha with ht | ht
@@ -45,13 +46,13 @@ theorem chunks_are_padded_audio (cs : Nat) (hs : 0 < cs) (audio : List Int) :
 /-- **C17.1c delivered_complete** — a player that left its loop without having been stopped has
 delivered exactly the audio followed by the zero padding, as consecutive chunks of `cs` samples. -/
 theorem delivered_complete {cfg : Cfg} {script : List Cmd} {s : State} (h : Reach cfg script s)
-    (hcs : 0 < cfg.cs) (k : Nat) (p : Player) (hp : s.players[k]? = some p)
+    (k : Nat) (p : Player) (hp : s.players[k]? = some p) (hcs : 0 < p.cs)
     (ha : afterLoop p.pc = true) (hh : p.halting = false) :
-    p.written.flatten = p.audio ++ List.replicate (padLen cfg.cs p.audio.length) 0 ∧
-    ∀ c ∈ p.written, c.length = cfg.cs := by
+    p.written.flatten = p.audio ++ List.replicate (padLen p.cs p.audio.length) 0 ∧
+    ∀ c ∈ p.written, c.length = p.cs := by
   have hw := (delivered_prefix h k p hp).2 ha hh
   rw [hw]
-  exact ⟨(chunks_are_padded_audio cfg.cs hcs p.audio).1, (chunks_are_padded_audio cfg.cs hcs p.audio).2.1⟩
+  exact ⟨(chunks_are_padded_audio p.cs hcs p.audio).1, (chunks_are_padded_audio p.cs hcs p.audio).2.1⟩
 
 example : chunksOf 2 [1, 2, 3] = [[1, 2], [3, 0]] := by decide
 
@@ -67,8 +68,8 @@ theorem finished_after_close {cfg : Cfg} {script : List Cmd} {s : State} (h : Re
 
 /-- **C17.4 play_after_close_raises** — on a finished manager `play` creates no thread, opens no
 stream, leaves `_threads` alone and raises `ThreadError` (two steps: lock, raise + release). -/
-theorem play_after_close_raises (cfg : Cfg) (s s1 s2 : State) (a : List Int)
-    (hf : s.finished = true) (hpc : s.mpc = .pAcq a)
+theorem play_after_close_raises (cfg : Cfg) (s s1 s2 : State) (a : List Int) (c : Nat)
+    (hf : s.finished = true) (hpc : s.mpc = .pAcq a c)
     (h1 : stepMain cfg s = some s1) (h2 : stepMain cfg s1 = some s2) :
     s1.players = s.players ∧ s2.players = s.players ∧ s2.threads = s.threads ∧
     Ev.playThreadError ∈ s2.log ∧ s2.finished = true := by
@@ -86,7 +87,7 @@ theorem play_after_close_raises (cfg : Cfg) (s s1 s2 : State) (a : List Int)
 
 /-- non-vacuity: `close ; play` reaches the raising branch (default schedule of the control
 script alone) -/
-example : ((runSched ⟨false, false, 2⟩ (init [.close, .play [1, 2, 3]])
+example : ((runSched ⟨false, false⟩ (init [.close, .play [1, 2, 3] 2])
     (List.replicate 9 Tid.main)).1.log) = [.closeOk [] 0, .playThreadError] := by decide
 
 /-- **C17.3 closed_after** — once the backend has been terminated (which only `close` does, as its
@@ -105,7 +106,7 @@ theorem closed_after_close {cfg : Cfg} {script : List Cmd} {s : State} (h : Reac
 
 /-- non-vacuity of `closed_after_close`: a full run of `play ; close` under a schedule with
 context switches ends with `close` returned and everything shut -/
-example : let s := (runSched ⟨false, false, 2⟩ (init [.play [101, 102, 103], .close])
+example : let s := (runSched ⟨false, false⟩ (init [.play [101, 102, 103] 2, .close])
       ([0,0,0,0,0,0,0,0,0,0,0,1,1,1,1,0,1,1,1,1,1,0,0,0,0,0].map
         fun n => if n = 0 then Tid.main else Tid.player (n - 1))).1
     (Ev.closeOk [false] 0 ∈ s.log ∧ closedAfter s = true ∧ s.mpc = .done) := by decide
@@ -164,7 +165,7 @@ theorem lock_order {cfg : Cfg} {script : List Cmd} {s : State} (hr : Reach cfg s
         cases p.pc <;> simp [wantsPlayer, selfHold] <;> intro e <;> subst e <;> simp [lockRank]
 
 /-- non-vacuity: a player at `thread_finished` holds its own lock and wants the manager lock -/
-example : let s := (runSched ⟨true, false, 2⟩ (init [.play [101], .close])
+example : let s := (runSched ⟨true, false⟩ (init [.play [101] 2, .close])
       ([0,0,0,0,0,0,0,1,1,1,1,1].map fun n => if n = 0 then Tid.main else Tid.player (n - 1))).1
     (wants s (.player 0) = some .mlock ∧ (s.players[0]?).map (·.lk) = some (some (.player 0))) := by
   decide
@@ -218,8 +219,8 @@ theorem steps_bounded_explicit (cfg : Cfg) (script : List Cmd) (sched : List Tid
 
 /-- non-vacuity: a schedule of 30 steps that is executed to its end (the bound is 52) -/
 example : let sched := mkSched ([0,0,0,0,0,0,0,0,0,0,0,0,1,1,1,1,0,0,0] ++ [1,1,1,1,1,1,0,0,0,0,0])
-    (runSched ⟨false, true, 2⟩ (init [.play [101], .ctl .pause 0, .close]) sched).2 = [] ∧
-    sched.length = 30 ∧ stepBound ⟨false, true, 2⟩ [.play [101], .ctl .pause 0, .close] = 52 := by
+    (runSched ⟨false, true⟩ (init [.play [101] 2, .ctl .pause 0, .close]) sched).2 = [] ∧
+    sched.length = 30 ∧ stepBound ⟨false, true⟩ [.play [101] 2, .ctl .pause 0, .close] = 52 := by
   decide
 
 /-- **C17.8c maximal_run_exists** — every executed schedule can be continued to a terminal state
@@ -249,9 +250,9 @@ theorem terminal_states {cfg : Cfg} {script : List Cmd} {s : State} (hr : Reach 
 /-- non-vacuity: the second alternative is reachable with the repaired `stop()` too — by the
 script's own `join` of a player it has paused (`th.pause(); th.join()` blocks on the real code
 as well: scheduler run `play ; pause ; join ; close` ends in `0:th0.join:0,1:go0.wait:0`) -/
-example : let s := (runSched ⟨false, true, 2⟩ (init [.play [101], .ctl .pause 0, .join 0, .close])
+example : let s := (runSched ⟨false, true⟩ (init [.play [101] 2, .ctl .pause 0, .join 0, .close])
       (mkSched [0,0,0,0,0,1,0,0,0,1,1,1,0])).1
-    (terminal ⟨false, true, 2⟩ s = true ∧ s.mpc = .jJoin 0 ∧ pcAt s 0 = some .goWait) := by decide
+    (terminal ⟨false, true⟩ s = true ∧ s.mpc = .jJoin 0 ∧ pcAt s 0 = some .goWait) := by decide
 
 /-- **C17.10 close_never_blocks_fixed** — with the repaired `stop()` and `wait=False` no run
 ends inside `close`, whatever was paused, for EVERY script: a run can only get stuck in a `join`
@@ -280,7 +281,7 @@ theorem close_returns_fixed (cfg : Cfg) (script : List Cmd) (s : State) (hf : cf
   · exact absurd hmem (hj i)
 
 /-- non-vacuity: `play ; pause ; close` under the schedule on which the code as it was deadlocks -/
-example : (runSched ⟨false, true, 2⟩ (init [.play [101], .ctl .pause 0, .close])
+example : (runSched ⟨false, true⟩ (init [.play [101] 2, .ctl .pause 0, .close])
     (mkSched ([0,0,0,0,0,0,0,0,0,0,0,0,1,1,1,1,0,0,0] ++ [1,1,1,1,1,1,0,0,0,0,0]))).1.mpc = .done :=
   close_returns_fixed _ _ _ rfl rfl (by simp) (reach_runSched _ Reach.init) (by decide)
 
@@ -297,8 +298,8 @@ theorem close_returns_no_pause (cfg : Cfg) (script : List Cmd) (s : State) (hn :
   exact allDone_of_done hr ht hd (fun k p hp hpc => absurd hpc (np k p hp).noWait)
 
 /-- non-vacuity: two players, `stop` of one, `join` of the other, `wait=True`, code as it was -/
-example : allDone (runSched ⟨true, false, 1⟩
-      (init [.play [101, 102], .play [201], .ctl .stop 0, .join 1, .close])
+example : allDone (runSched ⟨true, false⟩
+      (init [.play [101, 102] 1, .play [201] 1, .ctl .stop 0, .join 1, .close])
       (mkSched [0,0,0,0,0,1,0,0,0,1,1,1,0,0,1,2,2,2,0,0,0,2,2,2,0,1,1,2,2,1,0,0,1,1,0,0,0,0])).1 = true :=
   close_returns_no_pause _ _ _ (by intro i h; simp at h) (reach_runSched _ Reach.init) (by decide)
 
@@ -344,11 +345,11 @@ theorem close_returns_wait_checked (cfg : Cfg) (script : List Cmd) (s : State)
 
 /-- non-vacuity: `wait=True`, a player paused and resumed before `close`; and the check rejects
 the script of known finding D10b -/
-example : (runSched ⟨true, true, 2⟩ (init [.play [101, 102, 103], .ctl .pause 0, .ctl .resume 0, .close])
+example : (runSched ⟨true, true⟩ (init [.play [101, 102, 103] 2, .ctl .pause 0, .ctl .resume 0, .close])
     (mkSched [0,0,0,0,0,1,0,0,0,1,1,1,0,0,0,1,1,1,0,0,0,1,1,1,0,1,1,1,0,0,0,0,0])).1.mpc = .done :=
   close_returns_wait_checked _ _ _ rfl (by decide) (by simp) (reach_runSched _ Reach.init) (by decide)
 
-example : closeUnpaused ⟨true, true, 2⟩ [.play [101], .ctl .pause 0, .close] = false := by decide
+example : closeUnpaused ⟨true, true⟩ [.play [101] 2, .ctl .pause 0, .close] = false := by decide
 
 /-- **C17.13 shutdown** — once the control script has finished in a terminal state and the script
 contained a `close`: that `close` has returned, every device stream is closed, `_threads` is
@@ -382,9 +383,9 @@ theorem shutdown_fixed (cfg : Cfg) (script : List Cmd) (hf : cfg.fixed = true)
     exact ⟨hd, after_done hr ht hd hc⟩
 
 /-- non-vacuity of `shutdown_fixed`: a maximal run with a paused player -/
-example : let s := (runSched ⟨false, true, 2⟩ (init [.play [101], .ctl .pause 0, .close])
+example : let s := (runSched ⟨false, true⟩ (init [.play [101] 2, .ctl .pause 0, .close])
       (mkSched ([0,0,0,0,0,0,0,0,0,0,0,0,1,1,1,1,0,0,0] ++ [1,1,1,1,1,1,0,0,0,0,0]))).1
-    (terminal ⟨false, true, 2⟩ s = true ∧ Ev.closeOk [false] 0 ∈ s.log ∧ noneAlive s = true) := by
+    (terminal ⟨false, true⟩ s = true ∧ Ev.closeOk [false] 0 ∈ s.log ∧ noneAlive s = true) := by
   decide
 
 /-- **C17.13c shutdown_no_pause** — the same for scripts without `pause` calls: both variants of
@@ -412,8 +413,8 @@ theorem shutdown_no_pause (cfg : Cfg) (script : List Cmd) (hn : NoPause script)
 
 /-- non-vacuity of `shutdown_no_pause`: its hypotheses hold on a maximal run of two players
 (`wait=True`, code as it was, `stop` of one and `join` of the other) -/
-example : closedAfter (runSched ⟨true, false, 1⟩
-      (init [.play [101, 102], .play [201], .ctl .stop 0, .join 1, .close])
+example : closedAfter (runSched ⟨true, false⟩
+      (init [.play [101, 102] 1, .play [201] 1, .ctl .stop 0, .join 1, .close])
       (mkSched [0,0,0,0,0,1,0,0,0,1,1,1,0,0,1,2,2,2,0,0,0,2,2,2,0,1,1,2,2,1,0,0,1,1,0,0,0,0])).1 = true :=
   ((shutdown_no_pause _ _ (by intro i h; simp at h) (by simp) _ (by decide)).2 (by decide)).2.2.1
 
@@ -450,10 +451,10 @@ theorem shutdown_wait_checked (cfg : Cfg) (script : List Cmd) (hf : cfg.fixed = 
   shutdown_wait cfg script hf (unpaused_of_check hu) hj hc sched hrun
 
 /-- non-vacuity of `shutdown_wait_checked` (`wait=True`, pause and resume before `close`) -/
-example : let s := (runSched ⟨true, true, 2⟩
-      (init [.play [101, 102, 103], .ctl .pause 0, .ctl .resume 0, .close])
+example : let s := (runSched ⟨true, true⟩
+      (init [.play [101, 102, 103] 2, .ctl .pause 0, .ctl .resume 0, .close])
       (mkSched [0,0,0,0,0,1,0,0,0,1,1,1,0,0,0,1,1,1,0,0,0,1,1,1,0,1,1,1,0,0,0,0,0])).1
-    (terminal ⟨true, true, 2⟩ s = true ∧ Ev.closeOk [false] 0 ∈ s.log ∧ noneAlive s = true ∧
+    (terminal ⟨true, true⟩ s = true ∧ Ev.closeOk [false] 0 ∈ s.log ∧ noneAlive s = true ∧
       (s.players.map (·.written)) = [[[101, 102], [103, 0]]]) := by
   decide
 
@@ -466,7 +467,7 @@ theorem wait_close_delivers_all {cfg : Cfg} {script : List Cmd} {s : State} (hw 
     (hns : ∀ i, Cmd.ctl .stop i ∉ script) (hr : Reach cfg script s)
     (al : List Bool) (n : Nat) (hc : Ev.closeOk al n ∈ s.log)
     (k : Nat) (p : Player) (hp : s.players[k]? = some p) :
-    p.written = chunksOf cfg.cs p.audio := by
+    p.written = chunksOf p.cs p.audio := by
   have hca := closed_after_close hr al n hc
   have hex : exiting p = true := by
     unfold closedAfter at hca
@@ -477,11 +478,237 @@ theorem wait_close_delivers_all {cfg : Cfg} {script : List Cmd} {s : State} (hw 
   exact (delivered_prefix hr k p hp).2 hal ((hn_reach hw hns hr).noHalt k p hp)
 
 /-- non-vacuity: `wait=True`, pause and resume, three samples in chunks of two -/
-example : let s := (runSched ⟨true, true, 2⟩
-      (init [.play [101, 102, 103], .ctl .pause 0, .ctl .resume 0, .close])
+example : let s := (runSched ⟨true, true⟩
+      (init [.play [101, 102, 103] 2, .ctl .pause 0, .ctl .resume 0, .close])
       (mkSched [0,0,0,0,0,1,0,0,0,1,1,1,0,0,0,1,1,1,0,0,0,1,1,1,0,1,1,1,0,0,0,0,0])).1
     (Ev.closeOk [false] 0 ∈ s.log ∧ s.players.map (·.written) = [[[101, 102], [103, 0]]]) := by
   decide
+
+
+/-! ### the fine-grained system: every pull of a sample from a played iterable is a step
+
+`ALV.Model.C17Fine`: between two writes a player pulls its samples one at a time into its chunk
+buffer (`Asm`), and any other thread may run between two pulls — the granularity at which the tie
+explores the real code with scheduler-aware iterables (both chunking strategies, 2–3 players).
+`fine_assembly_own_samples` is the invariant that interference through anything shared between
+the chunk generators would break; `fine_refines` says that, when no iterable raises, the fine
+system does nothing the coarse one cannot do, so every theorem above holds for it. -/
+
+/-- schedules of the fine system, as lists of numbers -/
+def fineRun (fc : FCfg) (script : List Cmd) (l : List Nat) : FState := (runSchedF fc (initF script) (mkSched l)).1
+
+/-- **C17.15 fine_assembly_own_samples** — the central invariant of chunk assembly, for EVERY
+schedule (pre-emption between any two pulls), any number of players, any chunk sizes, any script,
+iterables that raise included, with or without the repairs: what a device stream has received,
+then the player's chunk buffer, then the samples it has not pulled yet, is exactly that player's
+own audio (or, once its last chunk was zero padded, the stream holds the audio followed by zeros
+and nothing is left); the buffer never exceeds the chunk size; every chunk written has exactly
+`cs` samples.  No sample of another player can be in it: "nothing lost, duplicated or reordered,
+whatever the interleaving of player threads". -/
+theorem fine_assembly_own_samples {fc : FCfg} {script : List Cmd} {fs : FState}
+    (h : ReachF fc script fs) (k : Nat) (p : Player) (a : Asm)
+    (hp : fs.base.players[k]? = some p) (ha : fs.asm[k]? = some a) :
+    (p.written.flatten ++ a.buf ++ a.rest = p.audio ∨
+      (a.rest = [] ∧ a.buf = [] ∧ ∃ n, p.written.flatten = p.audio ++ List.replicate n 0)) ∧
+    a.buf.length ≤ p.cs ∧ (∀ c ∈ p.written, c.length = p.cs) ∧
+    fs.asm.length = fs.base.players.length := by
+  have inv := own_reach h
+  obtain ⟨h1, h2, h3⟩ := inv.2 k p a hp ha
+  exact ⟨h2, h1, h3, inv.1⟩
+
+/-- script and configuration of the examples: two players, chunk size 2, `wait=True`, no failure -/
+def exFc : FCfg := ⟨⟨true, true⟩, [], false⟩
+def exScript : List Cmd := [.play [101, 102, 103] 2, .play [201, 202] 2, .close]
+
+/-- non-vacuity: player 0 is pre-empted after its first pull, player 1 pulls one sample, player 0
+goes on: the buffers hold `[101, 102]` and `[201]`, never a mixture -/
+example : (fineRun exFc exScript [0,0,0,0,0,0,0,0,0,0,0,0,0,0, 1,1, 2,2, 1]).asm.map (·.buf) =
+      [[101, 102], [201]] ∧
+    (fineRun exFc exScript [0,0,0,0,0,0,0,0,0,0,0,0,0,0, 1,1, 2,2, 1]).asm.map (·.rest) =
+      [[103], [202]] ∧
+    pulling (fineRun exFc exScript [0,0,0,0,0,0,0,0,0,0,0,0,0,0, 1,1, 2,2, 1]) 1 = true := by decide
+
+/-- **C17.16 fine_refines** — refinement: when no played iterable raises (and chunk sizes are
+positive), the coarse state carried by ANY reachable state of the fine system is reachable in the
+coarse system with the same script and configuration: a fine step is a coarse step or a stutter
+step (a pull).  Every safety theorem above therefore holds of the fine system. -/
+theorem fine_refines {fc : FCfg} {script : List Cmd} {fs : FState} (hnf : NoFail fc)
+    (hpos : PosCs script) (h : ReachF fc script fs) : Reach fc.cfg script fs.base :=
+  (sim_reach hnf hpos h).1
+
+/-- **C17.16b fine_delivered_prefix** — `delivered_prefix` for the fine system, all schedules -/
+theorem fine_delivered_prefix {fc : FCfg} {script : List Cmd} {fs : FState} (hnf : NoFail fc)
+    (hpos : PosCs script) (h : ReachF fc script fs) (k : Nat) (p : Player)
+    (hp : fs.base.players[k]? = some p) :
+    p.written <+: chunksOf p.cs p.audio ∧
+    (afterLoop p.pc = true → p.halting = false → p.written = chunksOf p.cs p.audio) :=
+  delivered_prefix (fine_refines hnf hpos h) k p hp
+
+/-- **C17.16c fine_delivered_complete** — `delivered_complete` for the fine system: a player that
+left its loop un-stopped has delivered its audio followed by the zero padding, in chunks of `cs` -/
+theorem fine_delivered_complete {fc : FCfg} {script : List Cmd} {fs : FState} (hnf : NoFail fc)
+    (hpos : PosCs script) (h : ReachF fc script fs) (k : Nat) (p : Player)
+    (hp : fs.base.players[k]? = some p) (ha : afterLoop p.pc = true) (hh : p.halting = false) :
+    p.written.flatten = p.audio ++ List.replicate (padLen p.cs p.audio.length) 0 ∧
+    ∀ c ∈ p.written, c.length = p.cs := by
+  have hr := fine_refines hnf hpos h
+  obtain ⟨hl, hall⟩ := (sim_reach hnf hpos h).2
+  have hk : k < fs.asm.length := by have := lt_of_getElem? hp; omega
+  have hcs : 0 < p.cs := (hall k p fs.asm[k] hp (List.getElem?_eq_getElem hk)).pos
+  exact delivered_complete hr k p hp hcs ha hh
+
+/-- **C17.16d fine_safety** — the other safety clauses for the fine system: backend terminated at
+most once; no backend call PortAudio would refuse; `close`'s assertion holds; and once the backend
+is terminated everything is closed -/
+theorem fine_safety {fc : FCfg} {script : List Cmd} {fs : FState} (hnf : NoFail fc)
+    (hpos : PosCs script) (h : ReachF fc script fs) :
+    fs.base.terminated ≤ 1 ∧ fs.base.perr = false ∧ Ev.closeAssertionError ∉ fs.base.log ∧
+    (1 ≤ fs.base.terminated → closedAfter fs.base = true) := by
+  have hr := fine_refines hnf hpos h
+  exact ⟨terminate_once hr, backend_protocol hr, (close_assertion_holds hr).1, closed_after hr⟩
+
+/-- a complete fine run of the two players with pre-emptions inside chunk assembly -/
+def exFull : List Nat :=
+  [0,0,0,0,0,0,0,0,0,0,0,0,0,0, 1,1, 2,2, 1,1,1,1,1,1,1,1,1,1,1, 0,0,0, 2,2,2,2,2,2,2,2, 0,0,0,0,0]
+
+/-- non-vacuity of the refinement theorems: the hypotheses hold, the run ends with both streams
+holding their own audio, everybody finished -/
+example : ((fineRun exFc exScript exFull).base.players.map (·.written) =
+      [[[101, 102], [103, 0]], [[201, 202]]]) ∧
+    (allDone (fineRun exFc exScript exFull).base = true) ∧ NoFail exFc ∧
+    (posCsB exScript = true) := by
+  refine ⟨by decide, by decide, ?_, by decide⟩
+  intro b hb; cases hb
+
+/-- **C17.17 fine_terminal_iff** — a thread can move in the fine system exactly when it can in the
+coarse state (a pull is always possible, a write needs what the coarse write needs): terminal
+states, hence deadlocks, correspond. -/
+theorem fine_terminal_iff {fc : FCfg} {script : List Cmd} {fs : FState} (hnf : NoFail fc)
+    (hpos : PosCs script) (h : ReachF fc script fs) :
+    terminalF fc fs = terminal fc.cfg fs.base :=
+  terminalF_eq fc fs (sim_reach hnf hpos h).2
+
+/-- **C17.18 fine_rank_decreases** — every step of every thread of the fine system decreases the
+rank `phiF` = coarse rank + samples of the `play` calls still to be issued + samples still to be
+pulled: no fairness assumption is needed for the fine system either. -/
+theorem fine_rank_decreases {fc : FCfg} {script : List Cmd} {fs fs' : FState} {t : Tid}
+    (hnf : NoFail fc) (hpos : PosCs script) (hr : ReachF fc script fs)
+    (h : stepF fc fs t = some fs') : phiF fc fs' < phiF fc fs :=
+  phiF_step hnf hpos hr h
+
+/-- **C17.18b fine_steps_bounded** — every fine run is finite: at most the coarse bound plus one
+step for each sample played. -/
+theorem fine_steps_bounded (fc : FCfg) (script : List Cmd) (hnf : NoFail fc) (hpos : PosCs script)
+    (sched : List Tid) (h : (runSchedF fc (initF script) sched).2 = []) :
+    sched.length ≤ stepBound fc.cfg script + audW script := by
+  have := runSchedF_phiF hnf hpos sched (ReachF.init (fc := fc) (script := script)) h
+  rw [phiF_init] at this
+  unfold stepBoundF at this
+  omega
+
+/-- **C17.18c fine_maximal_run_exists** — every executed fine schedule can be continued to a state
+where nobody is enabled. -/
+theorem fine_maximal_run_exists (fc : FCfg) (script : List Cmd) (hnf : NoFail fc)
+    (hpos : PosCs script) (sched : List Tid) (h : (runSchedF fc (initF script) sched).2 = []) :
+    ∃ ext, (runSchedF fc (initF script) (sched ++ ext)).2 = [] ∧
+      terminalF fc (runSchedF fc (initF script) (sched ++ ext)).1 = true := by
+  have hr : ReachF fc script (runSchedF fc (initF script) sched).1 :=
+    reachF_runSchedF sched ReachF.init
+  obtain ⟨ext, h1, h2⟩ := exists_maximalF hnf hpos _ _ hr (Nat.le_refl _)
+  have happ := runSchedF_append fc sched (initF script) ext h
+  exact ⟨ext, by rw [happ]; exact h1, by rw [happ]; exact h2⟩
+
+/-- **C17.19 fine_shutdown** — the liveness clause for the fine system (pre-emption anywhere
+inside chunk assembly): every fine schedule that was executed to its end is bounded, and if nobody
+is enabled at its end then — under the hypotheses of `close_returns_fixed` (repaired `stop()`,
+`wait=False`, whatever was paused), or of `close_returns_no_pause` (no `pause` call, both
+variants, any `wait`), or of `close_returns_wait_checked` (repaired `stop()`, nobody paused when
+`close` is called) — the script has completed, `close` has returned, every stream is closed, the
+backend was terminated exactly once and no player is alive. -/
+theorem fine_shutdown (fc : FCfg) (script : List Cmd) (hnf : NoFail fc) (hpos : PosCs script)
+    (hc : Cmd.close ∈ script)
+    (hyp : (fc.cfg.fixed = true ∧ fc.cfg.wait = false ∧ ∀ i, Cmd.join i ∉ script) ∨
+           NoPause script ∨
+           (fc.cfg.fixed = true ∧ closeUnpaused fc.cfg script = true ∧ ∀ i, Cmd.join i ∉ script))
+    (sched : List Tid) (hrun : (runSchedF fc (initF script) sched).2 = []) :
+    sched.length ≤ stepBound fc.cfg script + audW script ∧
+    (terminalF fc (runSchedF fc (initF script) sched).1 = true →
+      (runSchedF fc (initF script) sched).1.base.mpc = .done ∧
+      (∃ al n, Ev.closeOk al n ∈ (runSchedF fc (initF script) sched).1.base.log) ∧
+      closedAfter (runSchedF fc (initF script) sched).1.base = true ∧
+      noneAlive (runSchedF fc (initF script) sched).1.base = true ∧
+      (runSchedF fc (initF script) sched).1.base.terminated = 1) := by
+  refine ⟨fine_steps_bounded fc script hnf hpos sched hrun, fun ht => ?_⟩
+  have hrf : ReachF fc script (runSchedF fc (initF script) sched).1 :=
+    reachF_runSchedF sched ReachF.init
+  have hr := fine_refines hnf hpos hrf
+  rw [fine_terminal_iff hnf hpos hrf] at ht
+  have hd : (runSchedF fc (initF script) sched).1.base.mpc = .done := by
+    rcases hyp with ⟨hf, hw, hj⟩ | hn | ⟨hf, hu, hj⟩
+    · exact close_returns_fixed fc.cfg script _ hf hw hj hr ht
+    · have ha := close_returns_no_pause fc.cfg script _ hn hr ht
+      unfold allDone at ha
+      simp only [Bool.and_eq_true, beq_iff_eq] at ha
+      exact ha.1
+    · exact close_returns_wait_checked fc.cfg script _ hf hu hj hr ht
+  exact ⟨hd, after_done hr ht hd hc⟩
+
+/-- **C17.19b fine_wait_close_delivers_all** — `wait=True`, no `stop()` call: once `close` has
+returned in the fine system every device stream holds its whole chunk sequence. -/
+theorem fine_wait_close_delivers_all {fc : FCfg} {script : List Cmd} {fs : FState}
+    (hnf : NoFail fc) (hpos : PosCs script) (hw : fc.cfg.wait = true)
+    (hns : ∀ i, Cmd.ctl .stop i ∉ script) (h : ReachF fc script fs)
+    (al : List Bool) (n : Nat) (hc : Ev.closeOk al n ∈ fs.base.log)
+    (k : Nat) (p : Player) (hp : fs.base.players[k]? = some p) :
+    p.written = chunksOf p.cs p.audio :=
+  wait_close_delivers_all hw hns (fine_refines hnf hpos h) al n hc k p hp
+
+/-! ### a played iterable that raises (known finding D21) -/
+
+/-- the code as it is (`dieFixed = false`): `play(it)` with an iterable that raises at its second
+pull, then `close()` (`wait=True`), under the schedule found on the real code by the harness -/
+def dieFc : FCfg := ⟨⟨true, true⟩, [true], false⟩
+def dieState : FState := fineRun dieFc [.play [101] 2, .close] [0,0,0,0,0,0,0,0,0, 1,1,1, 0]
+
+/-- **C17.20 die_close_spins** — an iterable that raises kills the player thread before its
+epilogue: the thread is finished (`join` returns at once) but still first in `_threads`, its
+device stream still open; and from ANY state of that shape (`Spinning`) the loop in `close` — take
+the lock and `_threads[0]`, release, `join` — can be repeated for ever without changing anything:
+`close()` never returns (no `close` event is ever logged).  Known finding D21. -/
+theorem die_close_spins :
+    Spinning dieFc dieState 0 ∧ dieState.base.players.map (·.sst) = [.active] ∧
+    (∀ (fc : FCfg) (fs : FState) (i : Nat), Spinning fc fs i → ∀ n, ∃ fs',
+      runSchedF fc fs (List.replicate n [Tid.main, .main, .main]).flatten = (fs', []) ∧
+      fs'.base.mpc = .kMAcq ∧ fs'.base.log = fs.base.log) := by
+  refine ⟨⟨by decide, by decide, by decide, by decide, by decide, by decide⟩, by decide, ?_⟩
+  intro fc fs i h n
+  exact spin_forever n h
+
+/-- **C17.20b die_fixed_close_returns** — with `try … finally` around the loop of `run`
+(proposed_fixes/D21-player-dies-close-spins.diff, `dieFixed = true`) the same history under the
+same schedule, continued, runs `close` to its end: the chunks completed before the exception
+were delivered, the stream is closed, the backend terminated once, nobody is alive. -/
+theorem die_fixed_close_returns :
+    let fc : FCfg := ⟨⟨true, true⟩, [true], true⟩
+    let fs := fineRun fc [.play [101, 102, 103] 2, .close]
+      [0,0,0,0,0,0,0,0,0, 1,1,1,1,1,1,1,1,1,1,1,1, 0,0,0,0,0]
+    (fs.base.log = [.playOk 0, .closeOk [false] 0] ∧ closedAfter fs.base = true ∧
+      noneAlive fs.base = true ∧ fs.base.players.map (·.written) = [[[101, 102]]] ∧
+      terminalF fc fs = true) := by decide
+
+-- PENDING: the general shutdown statement for iterables that raise, with the repair of `run`
+-- (`dieFixed = true`): a player whose iterable raises goes to its epilogue as a stopped player
+-- does, so `fine_shutdown` should hold without `NoFail`.  Proved today: the delivery invariant
+-- `fine_assembly_own_samples` (no hypothesis on the iterables), the refinement and liveness for
+-- iterables that do not raise, and the two concrete runs above.
+def fine_shutdown_with_raising_iterables_PENDING : Prop :=
+  ∀ (fc : FCfg) (script : List Cmd), fc.dieFixed = true → PosCs script → Cmd.close ∈ script →
+    fc.cfg.fixed = true → fc.cfg.wait = false → (∀ i, Cmd.join i ∉ script) →
+    ∀ (sched : List Tid), (runSchedF fc (initF script) sched).2 = [] →
+      terminalF fc (runSchedF fc (initF script) sched).1 = true →
+      (runSchedF fc (initF script) sched).1.base.mpc = .done ∧
+      closedAfter (runSchedF fc (initF script) sched).1.base = true ∧
+      noneAlive (runSchedF fc (initF script) sched).1.base = true
 
 /-! ### the deadlock of the code as it is (D10) -/
 
@@ -497,21 +724,21 @@ instance (cfg : Cfg) (s : State) : Decidable (StuckInClose cfg s) := by
 close()` reaches a state in which `close` never returns.  Schedule found on the real code by the
 scheduler harness (19 steps). -/
 theorem deadlock_pause_close :
-    StuckInClose ⟨false, false, 2⟩
-      (runSched ⟨false, false, 2⟩ (init [.play [101], .ctl .pause 0, .close])
+    StuckInClose ⟨false, false⟩
+      (runSched ⟨false, false⟩ (init [.play [101] 2, .ctl .pause 0, .close])
         (mkSched [0,0,0,0,0,0,0,0,0,0,0,0,1,1,1,1,0,0,0])).1 := by decide
 
 /-- the same with `wait=True` (close joins the paused player without stopping it) -/
 theorem deadlock_pause_close_wait :
-    StuckInClose ⟨true, false, 2⟩
-      (runSched ⟨true, false, 2⟩ (init [.play [101], .ctl .pause 0, .close])
+    StuckInClose ⟨true, false⟩
+      (runSched ⟨true, false⟩ (init [.play [101] 2, .ctl .pause 0, .close])
         (mkSched [0,0,0,0,0,0,0,0,0,0,0,0,1,1,1,1])).1 := by decide
 
 /-- … and the repaired `stop()` does not change that (`wait=True` never calls `stop()`): known
 finding D10b stays.  `close_returns_wait` states the exact hypothesis this script violates. -/
 theorem deadlock_pause_close_wait_fixed :
-    StuckInClose ⟨true, true, 2⟩
-      (runSched ⟨true, true, 2⟩ (init [.play [101], .ctl .pause 0, .close])
+    StuckInClose ⟨true, true⟩
+      (runSched ⟨true, true⟩ (init [.play [101] 2, .ctl .pause 0, .close])
         (mkSched [0,0,0,0,0,0,0,0,0,0,0,0,1,1,1,1])).1 := by decide
 
 /-- **C17.6b** the player need not be paused when `close` starts: `pause ; play ; close` deadlocks
@@ -519,13 +746,13 @@ too when the thread had already seen the pause (it tests `halting` before `go.wa
 clears `go` again afterwards).  So "no player is paused when close starts" is NOT sufficient for
 `close` to return in the code as it is. -/
 theorem deadlock_pause_resume_close :
-    StuckInClose ⟨false, false, 2⟩
-      (runSched ⟨false, false, 2⟩ (init [.play [101], .ctl .pause 0, .ctl .resume 0, .close])
+    StuckInClose ⟨false, false⟩
+      (runSched ⟨false, false⟩ (init [.play [101] 2, .ctl .pause 0, .ctl .resume 0, .close])
         (mkSched [0,0,0,0,0,0,0,0,0,0,1,1,1,1,0,0,0,0,0,0,0,0])).1 := by decide
 
 /-- with the proposed fix (`Cfg.fixed`) the very same schedules run `close` to its end -/
 theorem fixed_pause_close_returns :
-    ((runSched ⟨false, true, 2⟩ (init [.play [101], .ctl .pause 0, .close])
+    ((runSched ⟨false, true⟩ (init [.play [101] 2, .ctl .pause 0, .close])
         (mkSched ([0,0,0,0,0,0,0,0,0,0,0,0,1,1,1,1,0,0,0] ++ [1,1,1,1,1,1,0,0,0,0,0]))).1.log
       = [.playOk 0, .ctlOk, .closeOk [false] 0]) := by decide
 
@@ -533,7 +760,7 @@ theorem fixed_pause_close_returns :
 close returns" fails on one window: a player that has already left `_threads` is not joined, and
 may still have its last lock release to do (it is past every backend call: `closed_after`). -/
 theorem alive_after_close_reachable :
-    ((runSched ⟨true, false, 2⟩ (init [.play [101], .close])
+    ((runSched ⟨true, false⟩ (init [.play [101] 2, .close])
         (mkSched [0,0,0,0,0,0,0,1,1,1,1,1,1,1,0,0,0,0])).1.log
       = [.playOk 0, .closeOk [true] 0]) := by decide
 
